@@ -173,6 +173,30 @@ Print Assumptions C06_src_pin_parfile_copy_worker.
 From XcpProofs Require Import XState.
 From Coq Require Import String.
 Theorem C06_src_no_state_carried_between_files :
-  x_static_items = ["libxcp/src/backup.rs::BAK_REGEX"%string] /\ x_thread_locals = [] /\ x_umask_calls = 0%N.
+  x_static_items = ["libxcp/src/backup.rs::BAK_REGEX"; "libxcp/src/operations.rs::BACKUP_STEP"]%string /\ x_thread_locals = [] /\ x_umask_calls = 0%N.
 Proof. exact x_process_wide_state_ok. Qed.
 Print Assumptions C06_src_no_state_carried_between_files.
+
+(* ---- more glue on this property's path, pinned token for token ---- *)
+From XcpPins Require Import Pin_backup_get_backup_path Pin_operations_new.
+Theorem C06_src_pin_backup_get_backup_path : pin_unchanged name_backup_get_backup_path.
+Proof. exact pin_backup_get_backup_path. Qed.
+Theorem C06_src_pin_operations_new : pin_unchanged name_operations_new.
+Proof. exact pin_operations_new. Qed.
+Print Assumptions C06_src_pin_backup_get_backup_path.
+Print Assumptions C06_src_pin_operations_new.
+
+(* ---- two workers of one run overwriting f and f.~1~ with numbered backups (BackupRace.v): with the backup step
+   serialised (repair a649b3d; step codes 27/28 of CopyHandle::new) both orders end in the same directory with every
+   old version preserved; without it, a scan falling into the other worker's gap loses a version ---- *)
+From XcpModel Require Import BackupRace.
+From XcpProofs Require Import BackupRaceProofs.
+Theorem C06_backup_step_orders_agree : forall oldf oldb newf newb,
+  snapshot (run newf newb (d_init oldf oldb) sched_AB) = snapshot (run newf newb (d_init oldf oldb) sched_BA) /\
+  snapshot (run newf newb (d_init oldf oldb) sched_AB) = [Some newf; Some newb; Some oldf; None; Some oldb; None].
+Proof. exact locked_overwrites_commute. Qed.
+Theorem C06_backup_step_unserialised_refuted : exists oldf oldb newf newb,
+  snapshot (run newf newb (d_init oldf oldb) sched_gap) <> snapshot (run newf newb (d_init oldf oldb) sched_AB).
+Proof. exact unlocked_outcome_depends_on_schedule. Qed.
+Print Assumptions C06_backup_step_orders_agree.
+Print Assumptions C06_backup_step_unserialised_refuted.
